@@ -9,6 +9,9 @@ use crate::error::CgtError;
 use crate::models::{GbpTransaction, Match, MatchRule, Operation};
 use chrono::NaiveDate;
 use rust_decimal::Decimal;
+#[cfg(feature = "verif-hooks")]
+use crate::verif_map::Map as HashMap;
+#[cfg(not(feature = "verif-hooks"))]
 use std::collections::HashMap;
 
 /// Number of days for B&B matching window.
